@@ -19,7 +19,7 @@
 
    Sizes and starts are uint64 in Go; Size() of a segment is computed with Go's wrap-around. *)
 From Coq Require Import List NArith Arith Bool Lia.
-From DS Require Import Base.Bytes Base.Hash.
+From DS Require Import Gen.Constants Base.Bytes Base.Hash.
 Import ListNotations.
 
 Record ichunk := { c_id : id; c_start : N; c_size : N }.
@@ -37,7 +37,9 @@ Inductive source :=
 
 Record cand := { cd_first : nat; cd_last : nat; cd_src : option source }.
 
-Definition limit_of (canReflink : bool) : nat := if canReflink then 0 else 100.
+(* the limits are regenerated from fileseed.go / nullseed.go on every run (Gen/Constants.v) *)
+Definition limit_of (canReflink : bool) : nat := if canReflink then 0 else fileseed_limit.
+Definition nlimit_of (canReflink : bool) : nat := if canReflink then 0 else nullseed_limit.
 
 (* FileSeed.maxMatchFrom: number of rows matched, rows = target rows from sp on, sd = seed rows from dp on *)
 Fixpoint match_len (limit sp : nat) (rows sd : list ichunk) : nat :=
@@ -103,7 +105,7 @@ Definition longest (k : nat) (s : seedm) (rows : list ichunk) : nat * option sou
       match rows with
       | [] => (0, None, 0%N)
       | f :: _ =>
-          let n := ns_count (limit_of cr) 0 nid rows in
+          let n := ns_count (nlimit_of cr) 0 nid rows in
           if n =? 0 then (0, None, 0%N)
           else let l := nth (n - 1) rows f in
                (n, Some (FromNull k (c_start f) (w64 (c_start l + c_size l))),
